@@ -258,7 +258,13 @@ def run_A(rep, K, tmp, items, secs):
         d1, d2, tt, res, m, size = meta[idx]
         what = 'missed' if code == 1 else 'duplicate'
         near = [x for x in res if abs(x[0] - tt[0]) < 1e-4 and abs(x[1] - tt[1]) < 1e-4]
-        K.add(miss_key(d1, d2, what),
+        key = miss_key(d1, d2, what)
+        if key == 'subdivision-missed-crossing' and size < 0.1 and \
+                any(abs(x[0] - tt[0]) < 2e-3 and abs(x[1] - tt[1]) < 2e-3 for x in res):
+            # reported, but further than 1e-4 away: the absolute stopping tolerance (box area 1e-12)
+            # is too coarse for curves of this size (same class as in C11)
+            key = 'subdivision-residual-small-scale'
+        K.add(key,
               'C12: constructed transversal crossing at (t1,t2) = (%.9g, %.9g) of a %s pair (%s) is %s; returned %s'
               % (tt[0], tt[1], kinds_label(d1, d2), m['family'],
                  'not reported' if code == 1 else 'reported %d times' % len(near), res[:6]),
